@@ -66,13 +66,16 @@ extern Token bl_last_tok; extern size_t bl_tok_count;
 static inline vec_Token vec_Token_make(void) {
   vec_Token v;
 #ifdef NATIVE
-  v.cap = 1 << 16; v.data = (Token *)malloc(v.cap * sizeof(Token));
+  v.cap = 64; v.data = (Token *)malloc(v.cap * sizeof(Token));   /* grows on push; small, because a tokenize() that raises leaks it */
 #else
   v.cap = 0; v.data = 0;
 #endif
   v.size = 0; return v;
 }
 static inline void vec_Token_push(vec_Token *v, Token t) {
+#ifdef NATIVE
+  if (v->size >= v->cap) { v->cap *= 2; v->data = (Token *)realloc(v->data, v->cap * sizeof(Token)); }
+#endif
   if (v->size < v->cap) v->data[v->size] = t;
   v->size++;
   bl_last_tok = t; bl_tok_count++;
